@@ -6,7 +6,7 @@ import gen
 PRE_KINDS = ["pre_detach", "pre_attach", "pre_detach_children", "pre_attach_children"]
 POST_KINDS = ["post_detach", "post_attach", "post_detach_children", "post_attach_children"]
 ALL_KINDS = PRE_KINDS + POST_KINDS
-NM_CLASSES = ["mixin", "node", "anynode", "symlink", "eqmixin", "falsynode", "lenany", "falsymixin"]
+NM_CLASSES = ["mixin", "node", "anynode", "symlink", "eqmixin", "falsynode", "lenany", "falsymixin", "shadowmixin"]
 
 
 # ----------------------------------------------------------------------------------------------
@@ -156,6 +156,41 @@ def reentrant_histories(rng, tier):
             yield n0, hist + [dict(final, faults={"reenter": {"at": i, "y": y}}, pre_ops=[{"op": "sp", "n": y, "v": None}])]
 
 
+def pinned_cases(rng, tier):
+    """a class that overrides the public `parent` attribute and refuses to move a pinned node. The pinned node is the
+    FIRST child of the node the final call works on, so that the refusal comes before anything has changed: the call must
+    raise TreeError and leave the forest as it was (model-free oracle). Yields (n0, ops, pinned, pin_after)."""
+    import core
+    bases = []
+    for _ in range(60 if tier == "quick" else 600):
+        n0 = rng.randrange(4, 8)
+
+        def call():
+            while True:
+                o = random_call(rng, n0, False)
+                if o["op"] != "ctor":
+                    return o
+        hist = [call() for _ in range(rng.randrange(2, 8))]
+        bases.append((n0, hist))
+    res = core.run_driver([dict(mk("nm", False, n0, hist, cls="mixin"), loglevel=0) for n0, hist in bases])
+    for (n0, hist), r in zip(bases, res):
+        snap = r["mirror"][-1]["snap"]
+        parents = [p for p in range(n0) if snap[p][1]]
+        if not parents:
+            continue
+        p = rng.choice(parents)
+        pin = snap[p][1][0]
+        others = [x for x in range(n0) if x != p and x not in snap[p][1]]
+        finals = [{"op": "dc", "n": p}, {"op": "sc", "n": p, "xs": [], "as": "list"}]
+        if others:
+            finals.append({"op": "sc", "n": p, "xs": rng.sample(others, min(len(others), rng.choice([1, 2]))), "as": "list"})
+        anc = snap[p][0]
+        if anc is not None:
+            finals.append({"op": "sc", "n": p, "xs": [anc], "as": "list"})       # would be a LoopError after the delete phase
+        for f in finals:
+            yield n0, hist + [f], [pin], len(hist)
+
+
 def is_reentrant(case):
     return any("reenter" in (o.get("faults") or {}) for o in case.get("ops", []))
 
@@ -212,7 +247,7 @@ def wide_histories(rng, tier, faults=True, pre_only=False):
             yield n0, build + [dict(f, faults={"at": [i]})]
 
 
-LIGHT_CLASSES = ["light", "lighteq", "lightfalsy"]
+LIGHT_CLASSES = ["light", "lighteq", "lightfalsy", "lightshadow"]
 
 
 def mk(fl, asrt, n0, ops, cls=None, mixed=None):
@@ -220,7 +255,7 @@ def mk(fl, asrt, n0, ops, cls=None, mixed=None):
     if fl == "light" and not cls and not mixed:
         # the LightNodeMixin flavour, too, comes as a plain class and as one with value equality (all nodes equal);
         # the choice is a function of the history, so that a case is reproducible from its JSON alone
-        cls = LIGHT_CLASSES[{0: 1, 1: 1, 2: 2}.get((len(repr(ops)) + n0) % 6, 0)]
+        cls = LIGHT_CLASSES[{0: 1, 1: 1, 2: 2, 3: 3}.get((len(repr(ops)) + n0) % 7, 0)]
     if cls:
         c["cls"] = cls
     if mixed:
